@@ -2,9 +2,12 @@ package fs
 
 // C34: copying / hard-linking an output tree reproduces it and leaves the source alone.
 
+import "os"
+
 func init() {
 	vpRegister("vpH_C34_copy", vpH_C34_copy)
 	vpRegister("vpH_C34_again", vpH_C34_again)
+	vpRegister("vpH_C34_modes", vpH_C34_modes)
 }
 
 // vpH_C34_again: the tree is copied / linked into place, a source file is then
@@ -73,4 +76,32 @@ func vpC34Normalise(s string) string {
 		out = append(out, s[i])
 	}
 	return string(out)
+}
+
+// vpH_C34_modes: permission bits. A file (any of three modes), alone or inside a
+// directory, is copied / linked with a requested mode (0 = keep): the source file
+// keeps its permission bits and contents - a hard link shares its inode with the
+// source, so anything done to the destination's mode is done to the source.
+func vpH_C34_modes() {
+	vpFSReset()
+	const src, dst = "plz-out/tmp/src", "plz-out/gen/dst"
+	perm := []os.FileMode{0o755, 0o644, 0o600}[vpChoice("source-mode", 3)]
+	file := src
+	if vpNondetBool("source-is-a-directory") {
+		vpMkDir(src)
+		file = src + "/f"
+	}
+	vpMkFile(file, "v1", perm)
+	vpMkDir("plz-out/gen")
+	mode := []os.FileMode{0, 0o444, 0o555, 0o644}[vpChoice("requested-mode", 4)]
+	link := vpNondetBool("link")
+	fallback := vpNondetBool("fallback")
+	err := RecursiveCopyOrLinkFile(src, dst, mode, link, fallback)
+	vpAssume(err == nil)
+	_, _, s, _ := vpWalkTo(file, false, 0)
+	vpAssert("source-file-still-there", s != nil && s.kind == vpKFile)
+	vpAssert("source-mode-untouched", s.perm == perm)
+	vpAssert("source-contents-untouched", string(s.data) == "v1")
+	_, _, d, _ := vpWalkTo(dst+file[len(src):], false, 0)
+	vpAssert("destination-has-the-contents", d != nil && d.kind == vpKFile && string(d.data) == "v1")
 }
